@@ -46,10 +46,7 @@ func (p *diagramCmd) Execute(args cmdutils.ExecuteArgs) error {
 	}
 	g := mermaid.Init()
 	svg := g.Execute(out)
-	if err := os.WriteFile(p.Output, []byte(svg), 0600); err != nil {
-		panic(err)
-	}
-	return nil
+	return os.WriteFile(p.Output, []byte(svg), 0600)
 }
 
 func callDiagramGenerator(m *sysl.Module, p *diagramCmd) (string, error) {
